@@ -310,4 +310,84 @@ theorem runTick_contract {V : Type} (tick : V → Frame ℝ → V × Frame ℝ) 
     have h4 : C * frameSq f ≤ C * B2 := mul_le_mul_of_nonneg_left h2 hC
     linarith
 
+/-! ## the taps (outputs) are bounded by state and input -/
+
+theorem svf_sq_mul_le (c x : ℝ) (h0 : 0 ≤ c) (h1 : c ≤ 1) : (c * x) ^ 2 ≤ x ^ 2 := by
+  have h2 : c ^ 2 ≤ 1 := by nlinarith
+  nlinarith [mul_nonneg (sub_nonneg.2 h2) (sq_nonneg x)]
+
+theorem svf_lin3_sq (α β γ p q y : ℝ) (hα : 0 ≤ α ∧ α ≤ 1) (hβ : 0 ≤ β ∧ β ≤ 1) (hγ : 0 ≤ γ ∧ γ ≤ 1) :
+    (α * p - β * q + γ * y) ^ 2 ≤ 3 * (p ^ 2 + q ^ 2 + y ^ 2) := by
+  have h1 := svf_sq_mul_le α p hα.1 hα.2
+  have h2 := svf_sq_mul_le β q hβ.1 hβ.2
+  have h3 := svf_sq_mul_le γ y hγ.1 hγ.2
+  nlinarith [sq_nonneg (α * p + β * q), sq_nonneg (α * p - γ * y), sq_nonneg (β * q + γ * y)]
+
+theorem svf_modes_sq (k y q v1 gv1 N : ℝ) (hy : y ^ 2 ≤ N) (hq : q ^ 2 ≤ N) (h1 : v1 ^ 2 ≤ 3 * N)
+    (h1g : gv1 ^ 2 ≤ 3 * N) (hk : 0 < k) (hk2 : k ≤ 2) :
+    (q + gv1) ^ 2 ≤ 8 * N ∧ (y - v1 * k) ^ 2 ≤ 26 * N ∧ (y - v1 * k - (q + gv1)) ^ 2 ≤ 63 * N := by
+  have hkk : (v1 * k) ^ 2 ≤ 12 * N := by
+    have hk4 : k ^ 2 ≤ 4 := by nlinarith
+    have : (v1 * k) ^ 2 = k ^ 2 * v1 ^ 2 := by ring
+    rw [this]
+    nlinarith [mul_nonneg (sub_nonneg.2 hk4) (sq_nonneg v1), sq_nonneg k]
+  have h2 : (q + gv1) ^ 2 ≤ 8 * N := by nlinarith [sq_nonneg (q - gv1)]
+  refine ⟨h2, ?_, ?_⟩
+  · nlinarith [sq_nonneg (y + v1 * k)]
+  · nlinarith [sq_nonneg (y + v1 * k), sq_nonneg (y + (q + gv1)), sq_nonneg (v1 * k - (q + gv1))]
+
+/-- one channel: band-pass, low-pass, notch and high-pass taps squared are at most
+    3, 8, 26, 63 times `ic1eq² + ic2eq² + x²` -/
+theorem svf_taps_sq (g k a p q y : ℝ) (ha : a * (1 + g * (g + k)) = 1)
+    (hg : 0 < g) (hk : 0 < k) (hk2 : k ≤ 2) :
+    (p * a + (y - q) * (g * a)) ^ 2 ≤ 3 * (p ^ 2 + q ^ 2 + y ^ 2)
+      ∧ (q + p * (g * a) + (y - q) * (g * (g * a))) ^ 2 ≤ 8 * (p ^ 2 + q ^ 2 + y ^ 2)
+      ∧ (y - (p * a + (y - q) * (g * a)) * k) ^ 2 ≤ 26 * (p ^ 2 + q ^ 2 + y ^ 2)
+      ∧ (y - (p * a + (y - q) * (g * a)) * k - (q + p * (g * a) + (y - q) * (g * (g * a)))) ^ 2
+          ≤ 63 * (p ^ 2 + q ^ 2 + y ^ 2) := by
+  have hD : 0 < 1 + g * (g + k) := by positivity
+  have ha0 : 0 < a := by
+    by_contra h
+    have h' : a ≤ 0 := not_lt.mp h
+    nlinarith [mul_nonneg (neg_nonneg.2 h') hD.le]
+  have hgg := mul_pos ha0 (mul_pos hg hg)
+  have hgk := mul_pos ha0 (mul_pos hg hk)
+  have ha1 : a ≤ 1 := by nlinarith
+  have hag : a * g ≤ 1 := by nlinarith [mul_nonneg ha0.le (sq_nonneg (1 - g))]
+  have hagg : a * g ^ 2 ≤ 1 := by nlinarith
+  have hag0 : 0 ≤ a * g := by positivity
+  have hagg0 : 0 ≤ a * g ^ 2 := by positivity
+  have h1 := svf_lin3_sq a (a * g) (a * g) p q y ⟨ha0.le, ha1⟩ ⟨hag0, hag⟩ ⟨hag0, hag⟩
+  have h1g := svf_lin3_sq (a * g) (a * g ^ 2) (a * g ^ 2) p q y ⟨hag0, hag⟩ ⟨hagg0, hagg⟩ ⟨hagg0, hagg⟩
+  have e1 : p * a + (y - q) * (g * a) = a * p - a * g * q + a * g * y := by ring
+  have e2 : q + p * (g * a) + (y - q) * (g * (g * a)) = q + (a * g * p - a * g ^ 2 * q + a * g ^ 2 * y) := by ring
+  rw [e2, e1]
+  have hy : y ^ 2 ≤ p ^ 2 + q ^ 2 + y ^ 2 := by nlinarith [sq_nonneg p, sq_nonneg q]
+  have hq : q ^ 2 ≤ p ^ 2 + q ^ 2 + y ^ 2 := by nlinarith [sq_nonneg p, sq_nonneg y]
+  exact ⟨h1, svf_modes_sq k y q _ _ _ hy hq h1 h1g hk hk2⟩
+
+/-- the wet/dry blend: `(o·√m + f·√(1−m))² ≤ o² + f²` for `0 ≤ m ≤ 1` -/
+theorem svf_blend_sq (o f m : ℝ) (h0 : 0 ≤ m) (h1 : m ≤ 1) :
+    (o * Real.sqrt m + f * Real.sqrt (1 - m)) ^ 2 ≤ o ^ 2 + f ^ 2 := by
+  have hm := Real.sq_sqrt h0
+  have hm' := Real.sq_sqrt (sub_nonneg.2 h1)
+  nlinarith [sq_nonneg (o * Real.sqrt (1 - m) - f * Real.sqrt m)]
+
+/-- induction over a run: an invariant of the state that every admissible input preserves bounds
+    every output frame of the run -/
+theorem runTick_out_inv {V : Type} (tick : V → Frame ℝ → V × Frame ℝ) (I : V → Prop)
+    (ok P : Frame ℝ → Prop) (hI : ∀ v f, I v → ok f → I (tick v f).1)
+    (hP : ∀ v f, I v → ok f → P (tick v f).2) :
+    ∀ (xs : List (Frame ℝ)), (∀ x ∈ xs, ok x) → ∀ v : V, I v → ∀ o ∈ (runTick tick v xs).2, P o := by
+  intro xs
+  induction xs with
+  | nil => intro _ v _ o ho; simp [runTick] at ho
+  | cons f fs ih =>
+    intro hok v hv o ho
+    simp only [runTick, List.mem_cons] at ho
+    have hf := hok f List.mem_cons_self
+    rcases ho with rfl | ho
+    · exact hP v f hv hf
+    · exact ih (fun x hx => hok x (List.mem_cons_of_mem _ hx)) _ (hI v f hv hf) o ho
+
 end K
